@@ -75,7 +75,7 @@ type PkgContracts struct {
 	NonNil     map[string]bool
 }
 
-var reFunc = regexp.MustCompile(`^func\s+(?:\(\s*(?:\w+\s+)?\*?([\w.]+)(?:\[[^\]]*\])?\s*\)\s*)?([\w./]+)\s*$`)
+var reFunc = regexp.MustCompile(`^func\s+(?:\(\s*(?:\w+\s+)?\*?([\w.]+)(?:\[[^\]]*\])?\s*\)\s*)?([\w./$]+)\s*$`)
 var reSpec = regexp.MustCompile(`^spec\s+func\s+(\w+)\s*\(([^)]*)\)\s*([^=]*?)\s*(?:=\s*(.*))?$`)
 
 // ParseContracts reads <dir>/verif_contracts.go (and verif_contracts_*.go).
